@@ -55,10 +55,10 @@ def extra_run(man, tier, seed):
     for _ in range(n * 3):
         kind = rng.choice(list(RANGE))
         lo, hi = RANGE[kind]
-        w = rng.choice([1, 2, 3, 10, 20, 100, (hi - lo) // 3])
+        w = rng.choice([1, 2, 3, 10, 20, 100, (hi - lo) // 3, hi - lo, hi - lo - 1, (hi - lo) // 2 + 1])     # up to the full range of the type
         a_ = rng.randint(lo, hi - w) if rng.random() < 0.7 else rng.choice([lo, max(lo, -10), max(lo, -1), 0])
         b_ = min(hi, a_ + w)
-        if a_ >= b_ or b_ - a_ > 2 ** 31:
+        if a_ >= b_ or b_ - a_ >= 2 ** 32:
             continue
         p = rng.choice([0.0, 1.0, 1e-12, 1 - 1e-12, 0.5, rng.random(), rng.random()])
         x = rng.randint(a_, b_)
@@ -74,6 +74,15 @@ def extra_run(man, tier, seed):
         okc, _ = cmp_tokens(ai, am, 1e-12, 1e-15)
         if not okc:
             bad.append({'line': line, 'impl': ai, 'model': am})
+        if ai in ('PANIC', 'HANG'):
+            failures.append({'site': 'DiscreteUniform.invcdf_real' if what == 'invcdf' else 'DiscreteUniform.cdf_real', 'case': line, 'impl': ai,
+                             'expected': 'a value for valid parameters (a < b) and an argument inside the support', 'observed': ai.lower(), 'detail': what})
+        if what == 'cdf' and ai not in ('PANIC', 'HANG', 'NOOP'):
+            cv = tok_to_float(ai)
+            want = (arg - a_ + 1) / (b_ - a_ + 1) if arg < b_ else 1.0
+            if not (abs(cv - want) <= 1e-12):
+                failures.append({'site': 'DiscreteUniform.cdf_real', 'case': line, 'impl': repr(cv), 'expected': f'(x - a + 1) / (b - a + 1) = {want!r}',
+                                 'observed': 'value' if cv == cv else 'nan', 'detail': 'closed form of the discrete uniform cdf'})
         if what == 'invcdf' and ai not in ('PANIC', 'HANG'):
             v = int(ai)
             if not (a_ <= v <= b_):
